@@ -12,12 +12,19 @@ def build(tier):
     u = Unit('tbmerge', 'C13/tbmerge.cpp', ['h_tbprobe', 'h_swindle'],
              aliases={'_ZNK18TranspositionTable8probeDTMERK8PositioniRi': 'model_probeDTM', '_Z11currentTimev': 'model_currentTime'},
              # code of tbProbe behind 'nPieces <= gtbMaxPieces/TBLargest' (both concretely 0 here) and the unordered_map helpers of getMaxDTZ
-             allow_extern=[r'_ZN6Syzygy.*', r'_ZN7MoveGen.*', r'tb_probe_\w+', r'_ZN8Position(8makeMove|10unMakeMove).*', r'_ZNKSt8__detail20_Prime_rehash_policy.*'])
+             allow_extern=[r'_ZN9UciParams\d+minProbeDepth.*',   # read only for 6/7 men, behind 'nPieces > maxPieces' with maxPieces concretely 4
+                           r'_ZN6Syzygy.*', r'_ZN7MoveGen.*', r'tb_probe_\w+', r'_ZN8Position(8makeMove|10unMakeMove).*', r'_ZNKSt8__detail20_Prime_rehash_policy.*'])
+    al2 = dict(u.aliases); al2['_ZNK8Position7nPiecesEv'] = 'model_nPieces'
+    ue2 = Unit('tbentry', 'C13/tbmerge.cpp', ['h_tbprobe_entry'], aliases=al2, allow_extern=u.allow_extern)
     obs = [
         Ob('O1-tbprobe50@%dmen' % k, u, 'h_tbprobe', 'on-demand probe result merged with the 50-move rule: exact mate score iff the mate is completed by half-move 100, else bound 0 with the signed overshoot recorded; draws exact 0; no hit => no result',
            unwind=3, functions=['TBProbe::tbProbe (tbprobe.cpp:85-260)', 'rule50Margin', 'updateEvScore', 'TTEntry::setScore/getScore/setType/setEvalScore'],
            bounds='ply 0..200, hmc 0..99, n 0..100, nPieces 2..4, arbitrary prior entry contents',
            stubs=['TranspositionTable::probeDTM -> model_probeDTM', 'currentTime -> 0.0'], param=k) for k in (2, 3, 4)
+    ] + [
+        Ob('O1b-tbprobe-entry@%dmen%s' % (m, 'd' if k else ''), ue2, 'h_tbprobe_entry', 'the inline entry point the search calls (%s), %d men: without external tablebase files a position of 2..4 men reaches the on-demand probe at every depth, 5 men never' % ('with search depth' if k else 'without depth', m),
+           unwind=4, functions=['TBProbe::tbProbe inline overloads (tbprobe.hpp:184-215)'], param=2 * m + k, bounds='depth -10..200, ply 0..200, clock 0..99, any table answer',
+           stubs=['Position::nPieces -> the case constant', 'TranspositionTable::probeDTM -> model_probeDTM (always a hit here)', 'currentTime -> 0.0']) for m in (2, 3, 4, 5) for k in (0, 1)
     ] + [
         Ob('O2-swindle', u, 'h_swindle', 'swindleScore: |result| <= maxFrustrated, never a mate score, sign rules, below/inside the frustrated band, monotone',
            unwind=3, functions=['Evaluate::swindleScore (evaluate.cpp:184-197)', 'BitUtil::lastBit'], bounds='evalScore in [-32767,32767], distToWin in [-1000,1000] (two independent argument pairs for monotonicity)'),
@@ -36,4 +43,4 @@ def build(tier):
             o2 = copy.copy(o); o2.oid = 'O3-' + o.oid[3:].lstrip('-'); o2.core = o.oid == 'O5c-clear' or o.core
             obs.append(o2)
             if o.unit not in extra_units: extra_units.append(o.unit)
-    return [u] + extra_units, obs
+    return [u, ue2] + extra_units, obs
